@@ -191,11 +191,11 @@ func rowsKV(rows [][2]uint64) [][]any {
 type c12Drv struct {
 	kept     []byte // the previous MarshalJSON rendering, and its text at the time
 	keptText string
-	pooled  *vegeta.Histogram
-	reps    map[*vegeta.Histogram]vegeta.Reporter
-	tr      *Tracer
-	cases   int
-	samples []any
+	pooled   *vegeta.Histogram
+	reps     map[*vegeta.Histogram]vegeta.Reporter
+	tr       *Tracer
+	cases    int
+	samples  []any
 }
 
 func (d *c12Drv) guard(what string, f func()) {
